@@ -31,6 +31,10 @@ TABLE = {
     "c07fs": (["n1", "{", "}", ":", "(", ")", "int", "...", "on", "@"], "PNone", "PNone", 4, 5),
     "items": (["{", "}", "n1", ":", "[", "]", "!", "bad", "uni", "comma", "comment", "str", "...", "$", "(", "type"], "PNone", "PNone", 3, 4),
     "extschema": (["@", "n1", "{", "}", "query", ":", "mutation", "(", ")", "int"], "PExtSchema", "PNone", 4, 6),
+    "cvardir": (["n1", ":", "$", "int", "[", "]", "{", "}", "str"], "PVarDirArg", "SVarDirArg", 4, 6),
+    "cvardef": (["n1", ":", "$", "int", "[", "]", "{", "}", "@", "(", ")"], "PVarDefault", "SVars", 4, 6),
+    "ctypedir": (["n1", ":", "$", "int", "[", "]", "{", "}", "str"], "PTypeDirArg", "STypeDirArg", 4, 6),
+    "cargdef": (["n1", ":", "$", "int", "[", "]", "{", "}", "@", "str"], "PArgDefault", "SArgDefault", 4, 6),
     "frag": (["n1", "on", "@", "{", "}", "...", "(", ")", ":"], "PFrag", "PNone", 4, 6),
 }
 
